@@ -24,7 +24,8 @@ RULE = (
     "full / partial / empty echo, ack with wrong echo or wrong pair, negative ack codes, diagnostic message for this / another pair, "
     "alive-check request, unknown payload type, generic NACK, stray routing activation response} x unsolicited frames x split points, on "
     "the real DoIPConnection/DoIPTransport over in-memory streams under virtual time; a post-hoc reference demultiplexer on the recorded "
-    "delivery timeline decides every operation; every alive-check request must be answered within 0.5 s with the source address. "
+    "delivery timeline decides every operation; every alive-check request must be answered within 0.5 s with the source address. The gateway double parses the client's outgoing byte stream "
+    "(it must be a sequence of complete frames); some cases write a 5-70 KiB message to a slowly reading gateway (drain() suspends) while alive checks arrive. "
     "Non-trivial: stream contains a frame that is not the awaited one, or a split inside a frame. Distinct by case."
 )
 ASSUMPTIONS = [
